@@ -415,7 +415,13 @@ func (vc *FnVC) checkInvariants(h *ssa.BasicBlock, li *loopInfo, st *State, phiV
 		}
 	}
 	for i, a := range vc.autoInvariants(h, st) {
-		vc.oblige("inv-"+when, fmt.Sprintf("loop%d.auto%d", li.ordinal, i), a, vc.fnTags(), "range index bounds")
+		atags := vc.fnTags()
+		if vc.fc != nil && vc.fc.Options["auto-invariants"] == "safety" {
+			// iterator sanity of loops whose body calls functions with an unconstrained frame
+			// (a callee could empty the map being ranged over): filed with the safety obligations
+			atags = vc.safetyTags()
+		}
+		vc.oblige("inv-"+when, fmt.Sprintf("loop%d.auto%d", li.ordinal, i), a, atags, "range index bounds")
 	}
 	if li.spec != nil {
 		env := vc.loopEnv(h, st)
